@@ -99,7 +99,7 @@ MAP = [
     (G, 'CFGrid.make_clip_mask', ['Ems.gridClipMask'], ['C07']),
     (A, 'ArakawaC.make_clip_mask', ['Ems.arakawaClipMask'], ['C07']),
     (U, 'buffer_faces', ['Ems.bufferFaces', 'Ems.bufferIter'], ['C07']),
-    (U, 'mask_from_face_indexes', ['Ems.maskFromFaceIndexes', 'Ems.newElementIndexes'], ['C07']),
+    (U, 'mask_from_face_indexes', ['Ems.maskFromFaceIndexes', 'Ems.newElementIndexes', 'Ems.referencedBy'], ['C07', 'C09']),
     (U, 'UGrid.make_clip_mask', ['Ems.ugridClipMask', 'Ems.keptFaces'], ['C07']),
     # ---- applying a clip mask (C08, C09)
     (M, 'calculate_grid_mask_bounds', ['Ems.maskBounds', 'Ems.trueBounds'], ['C08']),
